@@ -385,6 +385,11 @@ def run(tier, seed, replay=None):
         crv = cf.circle(1, type=typ)
         lines.append('circle_net %d %s' % (which, C.qs(s2)))
         meta.append(('circle ' + typ, np.asarray(crv.controlpoints, dtype=float), {}))
+    # the 3 x 3 net of disc(type='square'), regenerated (Gen/DiscSquare.v); first index fastest in the file order of the list
+    for r_ in (1.0, 2.5, 0.375):
+        dsq = sf.disc(r_, type='square')
+        lines.append('disc_square_net %s %s' % (C.qs(C.fr(r_)), C.qs(C.fr(1 / math.sqrt(2)))))
+        meta.append(('disc square', np.asarray(dsq.controlpoints, dtype=float).transpose(1, 0, 2).reshape(-1, 3), dict(r=r_)))
     nl1 = 40 if tier == 'quick' else 400
     for _ in range(nl1):
         theta = rng.choice([rng.uniform(-2 * math.pi, 2 * math.pi), rng.choice([-2, -1, 1]) * math.pi, math.pi / 2, 2 * math.pi / 3, 4 * math.pi / 3, -2 * math.pi])
